@@ -268,6 +268,74 @@ def run_raw_names(ctx, binary, base):
     return n
 
 
+def run_link_and_backslash(ctx, binary, base):
+    """(a) DIR/x.mmm is one of several hard links of a read-only file: the other names keep content AND mode;
+    (b) a directory whose NAME contains a backslash (legal on Linux) next to a real path spelled with `/`: exactly the
+    directory named on the command line is cleaned.  Byte-level Python oracle, outside the model."""
+    import stat
+    import subprocess
+    n = 0
+    for mode in (0o444, 0o400, 0o644, 0o600):
+        for where in ("sub-directory", "outside", "same-directory"):
+            root = tempfile.mkdtemp(prefix="hl-", dir=base)
+            proj = os.path.join(root, "proj")
+            os.makedirs(os.path.join(proj, "sub"))
+            os.makedirs(os.path.join(root, "outside"))
+            other = {"sub-directory": os.path.join(proj, "sub", "data.txt"), "outside": os.path.join(root, "outside", "data.bin"), "same-directory": os.path.join(proj, "data.keep")}[where]
+            with open(other, "w") as f:
+                f.write("payload\n")
+            os.chmod(other, mode)
+            os.link(other, os.path.join(proj, "x.mmm"))
+            with open(os.path.join(proj, "y.mmm"), "w") as f:
+                f.write("plain\n")
+            rc, out, err = programs.run_bin(binary, ["clean", "proj"], root)
+            st = os.lstat(other) if os.path.exists(other) else None
+            left = sorted(os.listdir(proj))
+            n += 1
+            want_left = sorted(["sub"] + (["data.keep"] if where == "same-directory" else []))
+            bad = None
+            if rc != 0:
+                bad = "exit %d: %s" % (rc, err[-200:])
+            elif left != want_left:
+                bad = "DIR holds %r afterwards, expected %r" % (left, want_left)
+            elif st is None or open(other).read() != "payload\n":
+                bad = "the other name of the file (%s) lost its content" % where
+            elif stat.S_IMODE(st.st_mode) != mode:
+                bad = "the other name of the hard-linked file (%s) had mode %o and has mode %o now" % (where, mode, stat.S_IMODE(st.st_mode))
+            if bad:
+                ctx.report("hard-linked-mmm", "clean of a directory whose x.mmm is a hard link of a file with mode %o (other name: %s): %s" % (mode, where, bad),
+                           {"mode": "%o" % mode, "other_name": where, "left": left, "stdout": out[-300:], "stderr": err[-300:],
+                            "how": "mkdir -p proj/sub outside; echo payload > <other>; chmod <mode> <other>; ln <other> proj/x.mmm; mscript clean proj; stat <other>"})
+            for dp, dns, fns in os.walk(root):
+                for x in fns:
+                    try:
+                        os.chmod(os.path.join(dp, x), 0o644)
+                    except OSError:
+                        pass
+            shutil.rmtree(root, ignore_errors=True)
+    for dn, twin in (("out\\debug", "out/debug"), ("a\\b\\c", "a/b/c"), ("tail\\", "tail"), ("\\lead", "lead")):
+        for inv in ("rel", "abs", "dot"):
+            root = tempfile.mkdtemp(prefix="bs-", dir=base)
+            d = os.path.join(root, dn)
+            os.mkdir(d)
+            os.makedirs(os.path.join(root, twin))
+            for dd in (d, os.path.join(root, twin)):
+                for nm in ("x.mmm", "keep.ms"):
+                    with open(os.path.join(dd, nm), "w") as f:
+                        f.write(dd + "\n")
+            args, cwd = {"rel": (["clean", dn], root), "abs": (["clean", d], root), "dot": (["clean", "."], d)}[inv]
+            rc, out, err = programs.run_bin(binary, args, cwd)
+            n += 1
+            here, there = sorted(os.listdir(d)), sorted(os.listdir(os.path.join(root, twin)))
+            if rc != 0 or here != ["keep.ms"] or there != ["keep.ms", "x.mmm"]:
+                ctx.report("backslash-in-directory-name", "clean %r (%s; a directory %r exists next to it): exit %d, the named directory holds %r (expected ['keep.ms']), the other one %r (expected untouched)"
+                           % (dn, inv, twin, rc, here, there), {"directory": dn, "other_directory": twin, "invoke": inv, "stdout": out[-300:], "stderr": err[-300:],
+                                                               "how": "mkdir 'out\\debug' out/debug (each with x.mmm, keep.ms); mscript clean 'out\\debug'"})
+            shutil.rmtree(root, ignore_errors=True)
+    ctx.cov["hard_link_and_backslash_cases"] = n
+    return n
+
+
 def run(ctx):
     ok = core.coq_props(ctx, "Props/C20.v")
     binary = core.build_repo()
@@ -392,6 +460,7 @@ def run(ctx):
 
     nv = len(ctx.viol)
     extra += run_raw_names(ctx, binary, base)
+    extra += run_link_and_backslash(ctx, binary, base)
     spec_fail += len(ctx.viol) - nv
     ctx.cov["evaluations"] = len(trees) + extra
     ctx.cov["distinct_nontrivial"] = nontrivial
